@@ -4,12 +4,14 @@ import re
 def classify_crash(cr):
     """Attribute a crash / hang of a harness case to the library call that was running (`#in <component> …` printed just before the
     call) and to the place the sanitizer / assertion names, so that distinct defects stay distinct."""
-    comp = 'C03'
+    comp = None
     for ln in cr.get('context') or []:
         t = ln.split()
         if len(t) > 1:
             comp = t[1]
     err = cr.get('stderr_tail') or ''
+    if comp is None:       # the `#in` line scrolled out of the context window: take the outermost library frame
+        comp = 'SARSOP' if 'SARSOP::' in err else 'GapMin' if 'GapMin::' in err else 'C03'
     kind = cr['kind']
     if kind == 'hang':
         return (comp, 'hang')
@@ -22,12 +24,10 @@ def classify_crash(cr):
             where = tag
             break
     what = 'crash'
-    if 'AddressSanitizer' in err:
-        what = 'memory_error'            # heap-buffer-overflow / use-after-free / SEGV: one defect shows up under several ASan names
+    if 'AddressSanitizer' in err or 'runtime error' in err:
+        what = 'memory_error'            # one defect shows up under several sanitizer names (heap-buffer-overflow, use-after-free, null reference)
     elif 'Assertion' in err:
         what = 'assertion'
-    elif 'runtime error' in err:
-        what = 'ub'
     return (comp, what + ('_in_' + where if where else ''))
 
 
@@ -57,6 +57,7 @@ SPEC = {
         # finite-horizon solvers, consistency of the enclosure, clamp witness, driver evaluators = reference families
         'AITB.POMDP.backup_chain_sound', 'AITB.POMDP.pbvi_perseus_sound', 'AITB.POMDP.perseus_infinite_sound',
         'AITB.POMDP.blindSub_le_mdpSuper', 'AITB.POMDP.lowerRef_le_upperRef', 'AITB.POMDP.blind_fast_start_unsafe_witness',
+        'AITB.POMDP.qmdp_iter_upper', 'AITB.POMDP.qmdp_finite_upper', 'AITB.POMDP.qmdpStep_sound', 'AITB.POMDP.sawtooth_form_isInterp',
         'AITB.POMDP.iterHV_eq', 'AITB.POMDP.upperRefV_eq', 'AITB.POMDP.lowerRefV_eq',
         'AITB.POMDP.mW_valid', 'AITB.POMDP.mW_ref_superSol', 'AITB.POMDP.ΓW_sound', 'AITB.POMDP.conservative_skip_counterexample',
     ],
@@ -67,8 +68,8 @@ SPEC = {
     'case_timeout': 240,
     'classify_crash': classify_crash,
     'rule': 'one case = one (POMDP, solver) pair; 10 fixed POMDPs (Tiger, 1-state clamp witnesses, corner/face initial beliefs, all-negative rewards) then '
-            '40 (quick) / 600 (thorough) seeded dyadic POMDPs S<=4(5) A<=3 O<=3, discounts 1/2..15/16 (and 0.9/0.95/0.3), initial belief corner/face/interior; '
-            'solvers: BlindStrategies (both starts), FIB+QMDP, PBVI, PERSEUS, SARSOP (<=30/120 observed iterations), GapMin (<=12/60), look-ahead kernels. '
+            '40 (quick) / 300 (thorough) seeded dyadic POMDPs S<=4(5) A<=3 O<=3, discounts 1/2..15/16 (and 0.9/0.95/0.3), initial belief corner/face/interior; '
+            'solvers: BlindStrategies (both starts), FIB+QMDP, PBVI, PERSEUS, SARSOP (<=30/80 observed iterations), GapMin (<=12/30), look-ahead kernels. '
             'non-trivial = every line (each carries a full POMDP); distinct by protocol line',
     'modelled': [],
     'assumptions': [],
